@@ -505,6 +505,95 @@ class Atom:
         return "<%s %s>" % (self.kind, z3.simplify(self.e))
 
 
+RENDER_ATOMS = [False]
+
+
+def _render_octet(o):
+    """decimal text of an 8-bit value, shape by forking"""
+    if EX.branch(z3.ULT(o, 10)):
+        n = 1
+    elif EX.branch(z3.ULT(o, 100)):
+        n = 2
+    else:
+        n = 3
+    ten, hundred = z3.BitVecVal(10, 8), z3.BitVecVal(100, 8)
+    digits = {1: [o], 2: [z3.UDiv(o, ten), z3.URem(o, ten)], 3: [z3.UDiv(o, hundred), z3.URem(z3.UDiv(o, ten), ten), z3.URem(o, ten)]}[n]
+    return [_digit_char(SInt(z3.ZeroExt(1, d), 0, 9, CW + 1), 10) for d in digits]
+
+
+def _render_hextet(g):
+    """lower-case hex text of a 16-bit value without leading zeros, shape by forking"""
+    if EX.branch(z3.ULT(g, 0x10)):
+        n = 1
+    elif EX.branch(z3.ULT(g, 0x100)):
+        n = 2
+    elif EX.branch(z3.ULT(g, 0x1000)):
+        n = 3
+    else:
+        n = 4
+    out = []
+    for k in range(n - 1, -1, -1):
+        nib = z3.Extract(4 * k + 3, 4 * k, g)
+        out.append(_digit_char(SInt(z3.ZeroExt(CW + 1 - 4, nib), 0, 15, CW + 1), 16))
+    return out
+
+
+def render_atom(a):
+    memo = EX.path_data.setdefault("atom_render", {})
+    key = (a.kind, a.e.get_id())
+    if key in memo:
+        return list(memo[key])
+    e = z3.simplify(a.e)
+    if a.kind == "ipv4":
+        cs = []
+        for i in range(4):
+            if i:
+                cs.append(ord("."))
+            o = z3.simplify(z3.Extract(31 - 8 * i, 24 - 8 * i, e))
+            cs.extend([ord(c) for c in str(o.as_long())] if z3.is_bv_value(o) else _render_octet(o))
+    elif a.kind == "ipv6":
+        gs = [z3.simplify(z3.Extract(127 - 16 * i, 112 - 16 * i, e)) for i in range(8)]
+        zero = [(g.as_long() == 0) if z3.is_bv_value(g) else EX.branch(g == 0) for g in gs]
+        # ipaddress._compress_hextets: the first longest run of zero hextets of length > 1 becomes '::'
+        best_start, best_len, cur_start, cur_len = -1, 0, -1, 0
+        for i in range(8):
+            if zero[i]:
+                if cur_len == 0:
+                    cur_start = i
+                cur_len += 1
+                if cur_len > best_len:
+                    best_start, best_len = cur_start, cur_len
+            else:
+                cur_len = 0
+        texts = []
+        for i in range(8):
+            if zero[i]:
+                texts.append([ord("0")])
+            elif z3.is_bv_value(gs[i]):
+                texts.append([ord(c) for c in "%x" % gs[i].as_long()])
+            else:
+                texts.append(_render_hextet(gs[i]))
+        parts = []
+        if best_len > 1:
+            head, tail = texts[:best_start], texts[best_start + best_len:]
+            parts = head + [[]] + tail
+            if best_start == 0:
+                parts = [[]] + parts
+            if best_start + best_len == 8:
+                parts = parts + [[]]
+        else:
+            parts = texts
+        cs = []
+        for i, t in enumerate(parts):
+            if i:
+                cs.append(ord(":"))
+            cs.extend(t)
+    else:
+        raise EngineError("rendering of a %s atom" % a.kind)
+    memo[key] = list(cs)
+    return cs
+
+
 class LazyChars:
     """Sequence of characters computed on demand (used for hex digests, of which callers usually read one digit)."""
     __slots__ = ("n", "fn", "memo")
@@ -589,7 +678,23 @@ class SStr:
 
     def _noatom(self, what):
         if self.has_atom():
+            if RENDER_ATOMS[0] and EX is not None and EX.running:
+                self.render()
+                return
             raise EngineError("%s on a string containing a rendered symbolic value" % what)
+
+    def render(self):
+        """Replace address atoms by their text, in place: the *shape* of the text (digits per octet / hextet, position of the
+        zero-run compression) is decided by forking on the value, the digits stay symbolic.  Only when a harness has switched
+        RENDER_ATOMS on (file-level obligations in which a later stage rescans the text an earlier stage wrote)."""
+        out = []
+        for c in self.cs:
+            if type(c) is Atom:
+                out.extend(render_atom(c))
+            else:
+                out.append(c)
+        self.cs = out
+        return self
 
     def concrete(self):
         if type(self.cs) is LazyChars:
@@ -692,6 +797,12 @@ class SStr:
         return z3.And(*conj) if len(conj) > 1 else conj[0]
 
     def _eq_atoms(self, o):
+        if RENDER_ATOMS[0] and EX is not None and EX.running:
+            self.render()
+            o.render()
+            if len(self.cs) != len(o.cs):
+                return _FALSE
+            return self._eq_expr(o)
         if o.concrete() and not self.concrete():
             return _eq_atoms_vs_text(self, o.plain())
         if self.concrete() and not o.concrete():
